@@ -28,7 +28,7 @@ func init() {
 				"R5: the conversions that feed the servers, the cache and the connection limiter copy each validated setting into the constructor field of the same meaning (a wrong-field copy would put an unvalidated value where a validated one is assumed).",
 			NotCovered: "hazards other than the recognised ones (non-positive quantities, family bounds, division by zero); validation " +
 				"of lists, URLs and cross-references between sections; the environment variables.",
-			Rules: map[string]string{"C20-RC": "class rules (error chains, shadowed results, character classes, crossed arguments, pool constructors, array pools, loop completeness, loop-carried buffers, replacing setters, complete clones, Grow arithmetic, pooled-buffer escape, sorted searches, fresh decode targets, per-iteration objects, whole-message copies, codec guards) over the packages this property rests on", "C20-R13": "server.bindData: interface bindings without an interface-listener manager are rejected with an error", "C20-R12": "cacheConfig.toInternal: cache type none exactly when size is 0; dnssvc.newListenConfig wraps a listen configuration with the connection limiter only when there is one", "C20-R11": "newServerDNS accepts exactly the documented idle-timeout interval [0, MaxTCPIdleTimeout] (interval derived from the edges into the panic)", "C20-R1": "zero / negative rejection of every numeric setting", "C20-R2": "subnet key length family bounds",
+			Rules: map[string]string{"C20-R14": "allocations sized by a configuration setting: the setting has an upper bound in validation (known findings: the rate-limit counts and the TCP pipeline count have none)", "C20-RC": "class rules (error chains, shadowed results, character classes, crossed arguments, pool constructors, array pools, loop completeness, loop-carried buffers, replacing setters, complete clones, Grow arithmetic, pooled-buffer escape, sorted searches, fresh decode targets, per-iteration objects, whole-message copies, codec guards) over the packages this property rests on", "C20-R13": "server.bindData: interface bindings without an interface-listener manager are rejected with an error", "C20-R12": "cacheConfig.toInternal: cache type none exactly when size is 0; dnssvc.newListenConfig wraps a listen configuration with the connection limiter only when there is one", "C20-R11": "newServerDNS accepts exactly the documented idle-timeout interval [0, MaxTCPIdleTimeout] (interval derived from the edges into the panic)", "C20-R1": "zero / negative rejection of every numeric setting", "C20-R2": "subnet key length family bounds",
 				"C20-R3": "section table completeness", "C20-R4": "divisor provenance", "C20-R5": "validated settings are copied into the constructor fields of the same meaning",
 				"C20-R8": "builder flags computed over all server groups accumulate (a later group cannot switch off what an earlier group needs, e.g. the profile database)",
 				"C20-R6": "DDR record validation: DoH port needs a path, hints must be of their address family"},
@@ -239,6 +239,8 @@ func runC20(c *an.Ctx) {
 			return ""
 		},
 	})
+	c.Floor("C20-R14", 1)
+	c20AllocSizes(c)
 	c.Floor("C20-R13", 1)
 	c20BindData(c)
 	// ---- R11: the stream servers accept exactly the documented idle-timeout range [0, MaxTCPIdleTimeout]
@@ -941,4 +943,88 @@ func c20BindData(c *an.Ctx) {
 			return ""
 		},
 	})
+}
+
+// c20AllocSizes: every allocation in production code whose size comes from a
+// configuration setting (a yaml field of package cmd that no code stores) is
+// sized by a setting that validation bounds from above: a value that passes
+// validation and is larger than what make accepts panics at the allocation
+// (makeslice: len out of range, makechan: size out of range), which for the
+// per-subnet window and the per-connection pipeline semaphore happens while a
+// query is being handled.
+func c20AllocSizes(c *an.Ctx) {
+	bounded := map[string]string{}
+	sized := map[string][]string{}
+	sizeOperands := func(in ssa.Instruction) (vs []ssa.Value, what string) {
+		switch x := in.(type) {
+		case *ssa.MakeSlice:
+			return []ssa.Value{x.Len, x.Cap}, "make([]T, n)"
+		case *ssa.MakeChan:
+			return []ssa.Value{x.Size}, "make(chan T, n)"
+		case *ssa.Call:
+			n := an.CalleeName(x)
+			if i := strings.Index(n, "["); i >= 0 {
+				n = n[:i]
+			}
+			switch {
+			case strings.HasSuffix(n, "container.NewRingBuffer"), strings.HasSuffix(n, "syncutil.NewChanSemaphore"):
+				return x.Call.Args, an.Short(n)
+			}
+		}
+		return nil, ""
+	}
+	for _, fn := range c.AllFns {
+		if fn.Blocks == nil || c.IsTestFile(fn.Pos()) {
+			continue
+		}
+		pk := an.FnPkg(fn)
+		if pk == nil || strings.HasSuffix(pk.Name(), "test") || strings.Contains(pk.Path(), "/internal/tools") || strings.Contains(pk.Path(), "/scripts/") {
+			continue
+		}
+		an.Instrs(fn, func(in ssa.Instruction) {
+			vs, what := sizeOperands(in)
+			for _, v := range vs {
+				if v == nil {
+					continue
+				}
+				if _, isConst := v.(*ssa.Const); isConst {
+					continue
+				}
+				w := &an.Walker{P: c.Prog}
+				w.Visit = func(x ssa.Value) bool {
+					if call, isCall := x.(*ssa.Call); isCall {
+						if b, isB := call.Call.Value.(*ssa.Builtin); isB && (b.Name() == "len" || b.Name() == "cap" || b.Name() == "min") {
+							return true // bounded by existing data / an explicit min
+						}
+					}
+					return false
+				}
+				w.Leaf = func(x ssa.Value, why string) {
+					if strings.HasPrefix(why, "field never stored: cmd.") {
+						f := strings.TrimPrefix(why, "field never stored: ")
+						sized[f] = append(sized[f], an.FnKey(fn)+" "+what)
+					}
+				}
+				w.Walk(v)
+			}
+		})
+	}
+	fields := make([]string, 0, len(sized))
+	for f := range sized {
+		fields = append(fields, f)
+	}
+	sort.Strings(fields)
+	for _, f := range fields {
+		sites := uniq(sized[f])
+		sort.Strings(sites)
+		key := "allocation sized by " + f + " is bounded by validation"
+		if why := bounded[f]; why != "" {
+			c.Ok("C20-R14", key, token.NoPos, why)
+			continue
+		}
+		c.Bad("C20-R14", key, token.NoPos, "the setting sizes %s and validation only requires it to be positive: a huge value is accepted and the allocation panics (or exhausts memory) when it is made", trunc(strings.Join(sites, "; "), 300))
+	}
+	if len(fields) == 0 {
+		c.Und("C20-R14", "allocations sized by configuration", token.NoPos, "none found (anchors: the window ring buffer and the pipeline semaphore)")
+	}
 }
